@@ -61,7 +61,27 @@ def gen_scenario(rng: random.Random) -> Dict[str, Any]:
         target = rng.choice(svcs)
         kind = rng.choice(["ptr", "ptr", "srv", "a", "txt", "any", "multi", "probe", "tc", "tc", "enum", "aaaa"])
         src = "10.0.0.%d" % rng.choice([60, 61])
-        if kind == "tc":
+        if kind == "tc" and rng.random() < 0.3:
+            # two trains back to back from one source: the first is completed by its final (non-TC) packet well inside the hold,
+            # the second starts before the first one's hold timer would have fired and is left to its own timer
+            pk = []
+            tt = t
+            n1 = rng.choice([1, 2])
+            for k in range(n1 + 1):
+                last = k == n1
+                qs = questions_for(rng, rng.choice(["ptr", "multi", "srv", "any"]), target) if (k == 0 or rng.random() < 0.5) else []
+                pk.append({"t": tt, "questions": qs, "known_n": rng.choice([0, 0, 1, 3]), "tc": not last, "src": src, "aid": "%d.%d" % (qi, k)})
+                if not last:
+                    tt += rng.choice([0, 10, 50, 100, 150])
+            tt += rng.choice([1, 20, 100, 200, 300])
+            target2 = rng.choice(svcs)
+            for k in range(rng.choice([1, 2])):
+                qs = questions_for(rng, rng.choice(["ptr", "multi", "srv", "any"]), target2) if (k == 0 or rng.random() < 0.5) else []
+                pk.append({"t": tt, "questions": qs, "known_n": rng.choice([0, 1, 3]), "tc": True, "src": src, "aid": "%d.b%d" % (qi, k)})
+                tt += rng.choice([10, 100, 300])
+            arrivals.extend(pk)
+            t = tt + 600
+        elif kind == "tc":
             npk = rng.choice([1, 2, 3, 4])
             ends_plain = rng.random() < 0.4
             pk = []
